@@ -25,7 +25,7 @@ fs=sorted({m for m in re.findall(r"test/[A-Za-z0-9_/]+\.py", t) if os.path.exist
 print(" ".join(fs))
 PY
 )
-if [ -n "$TESTS" ]; then
+if [ -n "$TESTS" ] && [ -z "${SKIP_TESTS:-}" ]; then
   echo "== existing tests on patched tree: $TESTS"
   (cd $S && timeout 3000 /venv/bin/python -m pytest -q -p no:cacheprovider -n 4 $TESTS 2>&1 | tail -3) | tee $DST/tests_patched.log
 fi
